@@ -42,7 +42,7 @@ func (e *Engine) parseFieldDecls() error {
 		if d.Kind != "field" {
 			continue
 		}
-		parts := strings.SplitN(d.Text, " writers ", 2)
+		parts := strings.SplitN(d.Text+" ", " writers ", 2)
 		if len(parts) != 2 {
 			return fmt.Errorf("%s:%d: field T.f writers F1, F2", d.File, d.Line)
 		}
@@ -690,6 +690,11 @@ func (e *Engine) pointeeWrite(fa *ssa.FieldAddr) string {
 				switch c := vr.(type) {
 				case *ssa.DebugRef:
 				case *ssa.BinOp:
+				case *ssa.UnOp:
+					// reading through the pointer
+					if c.Op != token.MUL {
+						return e.Fset.Position(c.Pos()).String()
+					}
 				case *ssa.Call:
 					callee := c.Call.StaticCallee()
 					if callee == nil || len(c.Call.Args) == 0 || c.Call.Args[0] != ssa.Value(u) || !strings.HasPrefix(e.fnKey(callee), "(*atomic.") {
